@@ -402,6 +402,9 @@ class HistRun:
             cs = self.store_colls()
         # calendars are where most properties live
         w = [4 if c.kind == "calendar" else 2 if c.kind == "addressbook" else 1 for c in cs]
+        if self.prop == "C15":
+            # both metadata back ends get their share
+            w = [x * (4 if c.backend in ("gitcfg", "bare") else 1) for x, c in zip(w, cs)]
         return self.rng.choices(cs, w)[0]
 
     def pick_member(self, kinds=None):
@@ -606,7 +609,7 @@ class HistRun:
             tags = PROPS_FOR_KIND[c.kind]
             for _ in range(r.randint(1, 3)):
                 t = r.choice(tags)
-                if r.random() < 0.2 and (t in c.props):
+                if r.random() < (0.4 if self.prop == "C15" else 0.2) and (t in c.props):
                     instrs.append(["remove", t, None])
                 else:
                     instrs.append(["set", t, self.gen_prop_value(t, c.backend)])
@@ -968,6 +971,8 @@ class HistRun:
                 rel = rel_of(self.world, raw)
                 if rel is not None and rel.startswith(coll) and "/" not in rel[len(coll):]:
                     name = rel[len(coll):]
+                    if name in c.members:
+                        self.v("C01", "C01.post-overwrote-existing-member", "POST %s answered %s with Location %r, which is the existing member %s: add-member altered another resource" % (coll, st, loc, name), backend=c.backend)
                     c.members[name] = MMember(body, op["ctype"])
                     ctx["rel"] = rel
                 else:
